@@ -52,6 +52,34 @@ impl Drop for Impl {
 
 fn main() {
     let args: Vec<String> = std::env::args().collect();
+    if args.get(1).map(|s| s == "race").unwrap_or(false) {
+        // final releases racing: every round one object, 2-4 handles on as many threads, each
+        // thread invokes once and then all drop their handle at the same instant
+        let rounds: usize = args.get(2).map(|s| s.parse().unwrap()).unwrap_or(20000);
+        let sh = Arc::new(Shared { in_body: AtomicBool::new(false), overlaps: AtomicUsize::new(0), drops: AtomicUsize::new(0),
+            drop_in_body: AtomicUsize::new(0), completed: AtomicUsize::new(0), stale: AtomicUsize::new(0),
+            live_handles: AtomicUsize::new(0), early_drop: AtomicUsize::new(0) });
+        let mut lost = 0usize;
+        for r in 0..rounds {
+            let obj: ICounter = ICounter::from(Impl { value: 0, sh: sh.clone() });
+            let n = 2 + r % 3;
+            let barrier = Arc::new(std::sync::Barrier::new(n));
+            let mut js = Vec::new();
+            for _ in 0..n - 1 {
+                let h = obj.clone();
+                let b = barrier.clone();
+                js.push(std::thread::spawn(move || { let _ = h.bump(1).unwrap(); b.wait(); drop(h); }));
+            }
+            let b = barrier.clone();
+            js.push(std::thread::spawn(move || { let _ = obj.bump(1).unwrap(); b.wait(); drop(obj); }));
+            for j in js { j.join().unwrap(); }
+            if sh.drops.load(SeqCst) != r + 1 { lost += 1; sh.drops.store(r + 1, SeqCst); }
+        }
+        println!("race rounds={} bumps=0 rounds_with_wrong_drop_count={} overlaps={} drop_in_body={}",
+            rounds, lost, sh.overlaps.load(SeqCst), sh.drop_in_body.load(SeqCst));
+        let ok = lost == 0 && sh.overlaps.load(SeqCst) == 0 && sh.drop_in_body.load(SeqCst) == 0;
+        std::process::exit(if ok { 0 } else { 1 });
+    }
     let nthreads: usize = args.get(1).map(|s| s.parse().unwrap()).unwrap_or(8);
     let iters: usize = args.get(2).map(|s| s.parse().unwrap()).unwrap_or(2000);
     let sh = Arc::new(Shared { in_body: AtomicBool::new(false), overlaps: AtomicUsize::new(0), drops: AtomicUsize::new(0),
